@@ -703,7 +703,7 @@ func TestGen(t *testing.T) {
 	seed := vlib.Seed()
 	root := vlib.NewRand(seed)
 	id := 0
-	nh := vlib.Scale(128, 5000)
+	nh := vlib.Scale(128, 2400)
 	for i := 0; i < nh; i++ {
 		id++
 		hs := root.SubSeed()
